@@ -2562,6 +2562,8 @@ class Interp:
                     ks.append(a.lin.key())
                 elif isinstance(a, VAdt) and a.fields is not None and len(a.fields) == 1 and isinstance(a.fields[0], VInt):
                     ks.append((a.path, a.fields[0].lin.key()))  # integer newtype (IpNumber, EtherType)
+                elif isinstance(a, VAdt) and a.key is not None:
+                    ks.append((a.path, a.key))  # an unmodified materialised value handed over by value
                 elif isinstance(a, VRef):
                     tv = self.load(st, ("place", a.fid, a.local, a.projs))
                     if isinstance(tv, VAdt) and tv.key is not None:
